@@ -30,6 +30,11 @@ class MemFilestore(VirtualFilestore):
     def _rec(self, *a) -> None:
         self.calls.append(a)
 
+    def __len__(self) -> int:
+        # container-like user objects may be falsy (here: "number of filestore operations in progress"); the library has to
+        # test the user's filestore argument for None, not for truth
+        return self.depth
+
     # --- helpers for the harness (not part of the interface)
     def h_put(self, path: str, data: bytes) -> None:
         self.files[_k(path)] = bytearray(data)
@@ -193,10 +198,23 @@ class FaultyFilestore(VirtualFilestore):
     """Wraps a filestore; `decide(op, path)` returns None or an exception instance to raise
     *before* the operation has any effect ("rejected filestore write")."""
 
-    def __init__(self, inner: VirtualFilestore, decide):
+    def __init__(self, inner: VirtualFilestore, decide, decide_x=None):
         self.inner = inner
         self.decide = decide
+        self.decide_x = decide_x  # second seam: read_data / calculate_checksum / file_size ("the file vanished", EIO)
         self.rejected: list[tuple] = []
+        self.rejected_x: list[tuple] = []
+
+    def _gate_x(self, op, path, *extra):
+        if self.decide_x is None:
+            return
+        e = self.decide_x(op, path, *extra)
+        if e is not None:
+            self.rejected_x.append((op, _k(path)) + tuple(extra))
+            raise e
+
+    def __len__(self) -> int:
+        return 0  # falsy user object, see MemFilestore.__len__
 
     def _gate(self, op, path, *extra):
         e = self.decide(op, path, *extra)
@@ -205,6 +223,7 @@ class FaultyFilestore(VirtualFilestore):
             raise e
 
     def read_data(self, file, offset, read_len):
+        self._gate_x("read_data", file, offset, read_len)
         return self.inner.read_data(file, offset, read_len)
 
     def read_from_opened_file(self, bytes_io, offset, read_len):
@@ -224,6 +243,7 @@ class FaultyFilestore(VirtualFilestore):
         return self.inner.truncate_file(file)
 
     def file_size(self, file):
+        self._gate_x("file_size", file)
         return self.inner.file_size(file)
 
     def write_data(self, file, data, offset):
@@ -253,6 +273,7 @@ class FaultyFilestore(VirtualFilestore):
         return self.inner.list_directory(d, t, recursive)
 
     def calculate_checksum(self, checksum_type, file_path, size_to_verify, segment_len=4096):
+        self._gate_x("calculate_checksum", file_path, size_to_verify)
         return self.inner.calculate_checksum(checksum_type, file_path, size_to_verify, segment_len)
 
 
